@@ -3,6 +3,7 @@
 import DropletsVerif.Driver.C12
 import DropletsVerif.Driver.C11
 import DropletsVerif.Driver.C10
+import DropletsVerif.Driver.C06
 
 open DV.Drv
 
@@ -11,6 +12,7 @@ def dispatch (line : String) : String :=
   | "c12" :: args => handleC12 args
   | "c11" :: args => handleC11 args
   | "c10" :: args => handleC10 args
+  | "c06" :: args => handleC06 args
   | _ => "bad-op"
 
 partial def loop (h : IO.FS.Stream) (out : IO.FS.Stream) : IO Unit := do
